@@ -68,8 +68,7 @@ func runC17Chain(c C17ChainCase, cs *kit.CaseStats) error {
 	}
 	ref := insts[0]
 	for si, st := range c.Steps {
-		known := func(id types.BlockID) bool { _, ok := ref.node.CM.State(id); return ok }
-		_, blocks, states, validated := tr.ResolveBatch(st, known)
+		_, blocks, states, validated := tr.ResolveBatch(st, ref.node.ValidatedParent)
 		if len(blocks) == 0 {
 			continue
 		}
